@@ -149,12 +149,11 @@ func (n *DerivativeNode) derivative(prev, curr models.Fields, prevTime, currTime
 		return 0, true, false
 	}
 	diff := f1 - f0
+	value := float64(diff) / (elapsed / float64(n.d.Unit))
 	// Drop negative values for non-negative derivatives
-	if n.d.NonNegativeFlag && diff < 0 {
+	if n.d.NonNegativeFlag && value < 0 {
 		return 0, true, false
 	}
-
-	value := float64(diff) / (elapsed / float64(n.d.Unit))
 	return value, true, true
 }
 
